@@ -2,6 +2,7 @@ import MpireModel.Drive.Chunk
 import MpireModel.Drive.Worker
 import MpireModel.Drive.Proto
 import MpireModel.Drive.Dispatch
+import MpireModel.Drive.Misc
 /- One line in, one line out. -/
 namespace Mpire.Drive
 
@@ -22,6 +23,16 @@ def handle (line : String) : String :=
       | "msort"   => handleMapSort fs
       | "disp"    => handleDisp fs
       | "assign"  => handleAssign fs
+      | "async"   => handleAsync fs
+      | "sig"     => handleSig fs
+      | "args"    => handleArgs fs
+      | "timeout" => handleTimeout fs
+      | "dscan"   => handleDScan fs
+      | "progress" => handleProgress fs
+      | "top5"    => handleTop5 fs
+      | "ratios"  => handleRatios fs
+      | "exc"     => handleExc fs
+      | "hist"    => handleHist fs
       | _ => none
     r.getD "bad-op"
 
